@@ -221,16 +221,21 @@ ResultOKm(db, q, res, running) ==
   IN IF HasAgg(q) THEN
         IF GroupBad(q) THEN res.err ELSE
         /\ ~res.err
+        \* the aggregate rows (one for the whole input, or one per group - in no promised order) are what OFFSET / LIMIT cut
         /\ IF q.group = <<>> THEN
               \* one row for the whole input, all zeros when it is empty
-              /\ Len(res.rows) = 1
-              /\ IF kept = <<>> THEN \A i \in 1..Len(q.list) : IsAgg(q.list[i]) => res.rows[1][i] = IntV(0)
-                 ELSE AggRowOKm(f, kept, q, res.rows[1], running)
-           ELSE LET gs == Groups(f, kept, q) IN
-              /\ Len(res.rows) = Cardinality(gs)                       \* exactly one row per distinct combination
-              /\ \A key \in gs : \E r \in 1..Len(res.rows) :
-                    /\ [j \in 1..Len(q.group) |-> res.rows[r][GroupIdx(q)[j]]] = key
-                    /\ AggRowOKm(f, Members(f, kept, q, key), q, res.rows[r], running)
+              /\ Len(res.rows) = Len(OffLim(<<1>>, q))
+              /\ Len(res.rows) = 1 =>
+                    IF kept = <<>> THEN \A i \in 1..Len(q.list) : IsAgg(q.list[i]) => res.rows[1][i] = IntV(0)
+                    ELSE AggRowOKm(f, kept, q, res.rows[1], running)
+           ELSE LET gs == Groups(f, kept, q)
+                    KeyOfRow(r) == [j \in 1..Len(q.group) |-> res.rows[r][GroupIdx(q)[j]]]
+                IN
+              /\ Len(res.rows) = Len(OffLim([i \in 1..Cardinality(gs) |-> i], q))   \* one row per distinct combination, then the window
+              /\ \A r \in 1..Len(res.rows) :
+                    /\ KeyOfRow(r) \in gs
+                    /\ AggRowOKm(f, Members(f, kept, q, KeyOfRow(r)), q, res.rows[r], running)
+              /\ \A r1, r2 \in 1..Len(res.rows) : r1 # r2 => KeyOfRow(r1) # KeyOfRow(r2)
      ELSE IF q.order # <<>> /\ OrderBad(of, q) THEN res.err ELSE
         LET cand == [i \in 1..Len(kept) |-> ProjRow(f, kept[i], q)] IN
         /\ ~res.err
